@@ -717,7 +717,36 @@ std::string lenClass(size_t n) {
 	return "len:2049-4096";
 }
 
+// Process history: TrimTexturePaths is called many times in one process, and what an earlier call left
+// behind (function-local statics, caches) must not change a later one. Every shard therefore starts
+// with one clean-up in a configuration chosen by its number (version class x terrain), recorded in
+// front of the tape of every failure it reports: [0xFD, w, case...]. A replay performs the same
+// warm-up first, in a fresh process, so a failure that depends on the first call reproduces.
+constexpr uint8_t kWarmMarker = 0xFD;
+void warmUp(uint8_t w) {
+	Case c;
+	c.vclass = w % 3;
+	c.terrain = (w / 3) & 1;
+	c.sub = 0;
+	c.entry = c.terrain ? E_LOAD : E_EXPLICIT;
+	c.kind = K_TEXSET;
+	c.idx = 0;
+	c.path = "C:\\game\\Data\\textures\\warm\\up.dds";
+	c.gen = "warm-up";
+	execute(c);
+}
+void initShard(Run& run) {
+	uint8_t w = static_cast<uint8_t>(run.args.shard % 6);
+	warmUp(w);
+	run.tapePrefix = {kWarmMarker, w};
+	run.cls(std::string("process-warm-up:") + (w % 3 == 0 ? "OB" : w % 3 == 1 ? "FO3" : "SK") + (w >= 3 ? "+terrain" : ""));
+}
+
 Verdict prop(Tape& t, Run& run) {
+	if (t.peek() == kWarmMarker) {
+		t.u8();
+		warmUp(t.u8() % 6);
+	}
 	Case c = decodeCase(t);
 	const bool isOB = c.vclass == V_OB;
 	const std::string& in = c.path;
@@ -931,6 +960,7 @@ int main(int argc, char** argv) {
 	h.id = "C19";
 	h.prop = prop;
 	h.deterministic = deterministic;
+	h.init = initShard;
 	h.maxTape = 4200;
 	h.quickCases = 60000;
 	h.thoroughCases = 1500000;
